@@ -7,7 +7,7 @@ PROPS = "Props_C06"
 
 def run(res):
     vlib.proof_step(res, PROPS, ["theories/ConnCases.vo", "theories/RespCases.vo"])
-    connrun.run_conn(res, ["cancel", "perm"], with_responder=True)
+    connrun.run_conn(res, ["cancel", "perm", "subscript"], with_responder=True)
 
 
 def replay(res, path):
